@@ -911,7 +911,7 @@ func evalActionDelete(node *ActionExpression, env *Environment) Object {
 		}
 
 		if obj == UNDEFINED {
-			env.Set(id.Value, val)
+			// deleting members from a set that does not exist changes nothing
 			return obj
 		}
 
